@@ -32,7 +32,7 @@
 (* walk_and) meets the declarative layer; AsWritten is the same statement   *)
 (* for walk_and as written in the pinned tree.                              *)
 (***************************************************************************)
-EXTENDS NormalForms, Json, IOUtils
+EXTENDS NormalForms, Json, IOUtils, SequencesExt
 CONSTANTS Fam, NL, Step, Off
 
 \* ---------- the context ----------
@@ -48,6 +48,10 @@ Ctx == [P |-> Prob, keys |-> << <<"a", <<>> >>, <<"b", <<>> >>, <<"x", <<>> >> >
 St == TLCEval(States(Ctx))
 
 \* ---------- leaves ----------
+ConstB(b) == [op |-> "const", args |-> <<>>, name |-> "", v |-> BV(b), vars |-> <<>>]
+ConstN(n) == [op |-> "const", args |-> <<>>, name |-> "", v |-> NV(n, 1), vars |-> <<>>]
+FluentE(n) == [op |-> "fluent", args |-> <<>>, name |-> n, v |-> UNDEF, vars |-> <<>>]
+ObjE(n) == [op |-> "obj", args |-> <<>>, name |-> n, v |-> UNDEF, vars |-> <<>>]
 Leaves == << FluentE("a"),
              Mk("le", <<FluentE("x"), ConstN(1)>>),
              Mk("le", <<ConstN(1), ConstN(2)>>),
@@ -116,12 +120,21 @@ Init == m = 0
 Next == \/ m = 0 /\ m' \in {0 - k : k \in 1..NB}
         \/ m < 0 /\ m' \in {(0 - m) + NB * j : j \in 0..((Count + m) \div NB)}
 Spec == Init /\ [][Next]_m
-E == Expand(Leaves, SkOf(CodeOf(m)))
-DesignNnf == m > 0 => LET n == MNnf(E, TRUE) IN IsNNF(n) /\ EquivOn(Ctx, E, n, St)
-DesignDnf == m > 0 => LET d == MDnf(Ctx, E, St, FALSE) IN IsDNF(d) /\ EquivOn(Ctx, E, d, St)
+SS == TLCEval(SetToSeq(St))
+N == DOMAIN SS
+T == TLCEval(AtomTT(Ctx, Leaves, SS))
+TrueI == 7
+FalseI == 8
+ASSUME Leaves[TrueI] = ConstB(TRUE) /\ Leaves[FalseI] = ConstB(FALSE)
+ASSUME \A i \in DOMAIN Leaves : IsAtom(Leaves[i]) /\ AtomBool(Ctx, Leaves, SS)[i]
+E == SkOf(CodeOf(m))
+\* the truth table computed from the atoms' tables is UPExpr!Eval of the expanded expression
+TruthTables == m > 0 => SkOK(Leaves, E) /\ TTAgreesWithEval(Ctx, Leaves, SS, E)
+DesignNnf == m > 0 => LET n == MNnf(E, TRUE) IN IsNNF(n) /\ TT(T, N, n) = TT(T, N, E)
+DesignDnf == m > 0 => LET d == MDnf(T, N, E, FALSE, TrueI, FalseI) IN IsDNF(d) /\ TT(T, N, d) = TT(T, N, E)
 \* walk_and as written: expected to FAIL on expressions with a valid product term
-AsWritten == m > 0 => LET d == MDnf(Ctx, E, St, TRUE) IN IsDNF(d) /\ EquivOn(Ctx, E, d, St)
+AsWritten == m > 0 => LET d == MDnf(T, N, E, TRUE, TrueI, FalseI) IN IsDNF(d) /\ TT(T, N, d) = TT(T, N, E)
 \* ... and only there (the as-written and the repaired mechanism differ on nothing else)
-AsWrittenOnlyThere == m > 0 => \/ HasValidProductTerm(Ctx, MNnf(E, TRUE), St)
-                               \/ MDnf(Ctx, E, St, TRUE) = MDnf(Ctx, E, St, FALSE)
+AsWrittenOnlyThere == m > 0 => \/ HasValidProductTerm(T, N, MNnf(E, TRUE))
+                               \/ MDnf(T, N, E, TRUE, TrueI, FalseI) = MDnf(T, N, E, FALSE, TrueI, FalseI)
 =============================================================================
